@@ -1,13 +1,18 @@
 import GBS.Model.Parse
+import GBS.Lemmas.RoundTrip
 /-!
 # C01 — canonical notation round-trips (model-level part)
 
 What is proved here is the *erasure* half at the level of the printers: the extension-free form of a descriptor, token,
 stochastic object, mixture and molecule does not depend on any weight, transition list, distribution or mixture mass (it is
 a function of the erased structure only), and contains the same tokens / descriptors / terminals in the same order.
-The fixed-point and same-object halves (`str ∘ parse` on characters) are tied to the code by the correspondence check and
-decided on the implementation by the round-trip oracle (fallback announced in DESIGN.md 7/C01); the binding and weight
-laws they rest on are `C02_binding_simulation` and `C02_weight_law`.
+At the level of **characters**, for bond descriptors (`GBS/Lemmas/RoundTrip.lean`): `C01_desc_plain_roundtrip` (the text printed
+without extensions parses back to the same symbol, id and bond order, weight 1, no list), `C01_desc_weight_roundtrip` (`[sym id |w|]`
+parses back to the same descriptor, for every weight whose printed form reads back — `NumTextOK`, decidable) and
+`C01_desc_empty_roundtrip` (`[]`).  The fixed-point and same-object halves for tokens, objects and molecules (`str ∘ parse` on
+characters) are tied to the code by the correspondence check and decided on the implementation by the round-trip oracle
+(fallback announced in DESIGN.md 7/C01); the binding and weight laws they rest on are `C02_binding_simulation` and
+`C02_weight_law`.
 -/
 namespace GBS.P
 open GBS GBS.Py
@@ -62,5 +67,37 @@ theorem C01_mol_noext (m : PMol) :
     printMol m false = (m.elems.map (printElem false)).flatten ++ (match m.mix with | some _ => ['.'] | none => []) := by
   unfold printMol
   cases m.mix <;> rfl
+
+
+/-- **C01 (descriptor, plain form, characters)** -/
+theorem C01_desc_plain_roundtrip (p : PDesc) (hs : p.d.sym ≠ .none) (hst : stereoRejected p.pre = false) (atom : Option Nat) :
+    parseDesc (printDesc p false) p.num p.pre atom =
+      .ok { d := { sym := p.d.sym, id := p.d.id, order := orderOfPrefix p.pre, weight := 1, trans := none, atom := atom.getD 0 },
+            pre := p.pre, num := p.num, noAtom := atom.isNone } :=
+  desc_plain_roundtrip p hs hst atom
+
+/-- **C01 (descriptor with a weight, characters)** -/
+theorem C01_desc_weight_roundtrip (p : PDesc) (hs : p.d.sym ≠ .none) (hst : stereoRejected p.pre = false) (atom : Option Nat)
+    (htr : p.d.trans = none) (hw1 : p.d.weight ≠ 1) (hnum : NumTextOK p.d.weight) :
+    parseDesc (printDesc p true) p.num p.pre atom =
+      .ok { d := { sym := p.d.sym, id := p.d.id, order := orderOfPrefix p.pre, weight := p.d.weight, trans := none, atom := atom.getD 0 },
+            pre := p.pre, num := p.num, noAtom := atom.isNone } :=
+  desc_weight_roundtrip p hs hst atom htr hw1 hnum
+
+/-- **C01 (empty terminal, characters)** -/
+theorem C01_desc_empty_roundtrip (p : PDesc) (hs : p.d.sym = .none) (hid : p.d.id = none) (ext : Bool)
+    (hw : p.d.trans = none ∧ p.d.weight = 1) (num : Nat) (pre : Str) (atom : Option Nat) :
+    parseDesc (printDesc p ext) num pre atom =
+      .ok { d := { sym := .none, id := none, order := .unspecified, weight := 1, trans := none, atom := 0 }, pre := pre, num := num, noAtom := true } :=
+  desc_empty_roundtrip p hs hid ext hw num pre atom
+
+/-- non-vacuity of `NumTextOK`: the printed forms of 2.5, 0 and 12.75 read back and contain neither `|` nor white space -/
+example : NumTextOK (5 / 2) ∧ NumTextOK 0 ∧ NumTextOK (51 / 4) := by
+  refine ⟨⟨?_, ?_, ?_⟩, ⟨?_, ?_, ?_⟩, ⟨?_, ?_, ?_⟩⟩ <;> decide +kernel
+
+/-- `[<12|2.5|]` -/
+example : parseDesc (printDesc { d := { sym := .lt, id := some 12, order := .single, weight := 5 / 2 }, pre := [], num := 3 } true) 3 [] (some 4) =
+    .ok { d := { sym := .lt, id := some 12, order := .single, weight := 5 / 2, atom := 4 }, pre := [], num := 3 } := by
+  decide +kernel
 
 end GBS.P
